@@ -255,8 +255,13 @@ class ConvexSpheropolygon(Shape2D):
                 phi += 2 * np.pi
             a = 1
             b = -2 * norm_v * np.cos(angles[indices] - phi)
-            c = norm_v**2 - self.radius**2
-            kernel[indices] = (-b + np.sqrt(b**2 - 4 * a * c)) / (2 * a)
+            # The discriminant b**2 - 4ac equals 4 (r**2 - |v|**2 sin(angle - phi)**2).
+            # It is evaluated in this form (and clipped at zero) because the textbook
+            # form cancels catastrophically for small rounding radii and can even
+            # become negative (giving nan) when the radius is zero.
+            sin_term = norm_v * np.sin(angles[indices] - phi)
+            discriminant = 4 * np.maximum(self.radius**2 - sin_term**2, 0)
+            kernel[indices] = (-b + np.sqrt(discriminant)) / (2 * a)
 
         return kernel
 
